@@ -54,6 +54,11 @@ func genConf(r *rand.Rand, portBase int) ConfSpec {
 	newKey := func() KeySpec {
 		id++
 		k := KeySpec{ID: fmt.Sprintf("u%d", id), Cipher: pick(r, cipherNames), Secret: randSecret(r)}
+		if id%3 == 1 {
+			// a secret is taken literally: blanks at its ends (and inside) are part of it (the configuration
+			// writes every secret as a quoted scalar)
+			k.Secret = []string{" ", "\t", "  "}[id%3] + k.Secret[:3] + " " + k.Secret[3:] + []string{" ", "", "\t "}[(id/3)%3]
+		}
 		if len(pool) > 0 && r.Intn(4) == 0 {
 			o := pool[r.Intn(len(pool))]
 			k.Cipher, k.Secret = o.Cipher, o.Secret // same material under another id
